@@ -101,11 +101,14 @@ def check_neighbourhoods(ctx, g, lines, version, prop="C11", key_suffix=""):
                                   % (O.safe_str(x), p, (oe.value.name, oe.value.end_type) if oe.ok else oe.cls(), q_))
                     nviol += 1
             for (p, q_) in ((a[0], b[0]), (b[0], a[0])):
-                oth = call(ctx, "other", x.other, g.segment(p))
-                if not oth.ok or oth.value.name not in (q_, p if a[0] == b[0] else q_):
-                    viol("other-wrong", "%s: other(%s) = %r, model %s"
-                                  % (O.safe_str(x), p, oth.value.name if oth.ok else oth.cls(), q_))
-                    nviol += 1
+                # (documented argument: "segment name or instance")
+                for how, arg in (("", g.segment(p)), ("/by-name", p)):
+                    oth = call(ctx, "other", x.other, arg)
+                    ctx.count("other_calls" + how)
+                    if not oth.ok or getattr(oth.value, "name", oth.value) not in (q_, p if a[0] == b[0] else q_):
+                        viol("other-wrong" + how, "%s: other(%s) = %r, model %s"
+                             % (O.safe_str(x), p, getattr(oth.value, "name", oth.value) if oth.ok else oth.cls(), q_))
+                        nviol += 1
     # graph-level lists
     for name, kind in (("dovetails", "L"), ("containments", "C")):
         want = sorted(rkey(r, version) for r in recs
